@@ -1,6 +1,6 @@
 CONSTANTS
  MaxQ = 2
- Acls = {"allow","deny","both","open","stardeny"}
+ Acls = {"allow","both","stardeny"}
  CacheModes = {TRUE}
  MaxEntries = 2
  FixFullText = TRUE
